@@ -33,6 +33,9 @@ type Net struct {
 	mu     sync.Mutex
 	conns  map[string]*PConn
 	outbox []Sent
+	// Direct delivers every written datagram to its destination at once
+	// (free-running mode without an event loop).
+	Direct bool
 }
 
 // NewNet creates an empty network.
@@ -92,7 +95,9 @@ func (n *Net) Deliver(to string, from net.Addr, data []byte) bool {
 	case c.inbox <- simPkt{from, data}:
 		return true
 	default:
+		c.mu.Lock()
 		c.Overflow++
+		c.mu.Unlock()
 		return false
 	}
 }
@@ -131,6 +136,10 @@ func (c *PConn) WriteTo(b []byte, addr net.Addr) (int, error) {
 	c.mu.Unlock()
 	if werr != nil {
 		return 0, werr
+	}
+	if c.n.Direct {
+		c.n.Deliver(addr.String(), c.addr, append([]byte(nil), b...))
+		return len(b), nil
 	}
 	c.n.mu.Lock()
 	c.n.outbox = append(c.n.outbox, Sent{From: c, To: addr, Data: append([]byte(nil), b...), At: time.Now()})
